@@ -362,6 +362,10 @@ class dictable(Dict):
     def update(self, other):
         for k, v in other.items():
             self[k] = v
+
+    def __ior__(self, other): 
+        self.update(other) # dict.__ior__ would store the values as they are, bypassing the length check and broadcasting of __setitem__
+        return self
     
     def __setitem__(self, key, value):
         n = len(self)
